@@ -72,7 +72,20 @@ impl Task {
     }
 }
 
+/// Under Miri the reference models are too slow to run before every trial: the expected values
+/// come from the published KAT files instead (no cryptocorrosion code runs, the process stays cold).
+#[allow(dead_code)]
+fn make_hash_kat(r: &mut Rng, id: HashId) -> Task {
+    let pairs = crate::refmodel::kat_pairs(&id.name());
+    let n = pairs.len().min(12) as u64;
+    let (m, d) = pairs[r.below(n) as usize];
+    Task::Hash { id, msg: m.to_vec(), exp: d.to_vec() }
+}
+
 fn make_hash(r: &mut Rng, id: HashId, maxlen: u64) -> Task {
+    if cfg!(miri) {
+        return make_hash_kat(r, id);
+    }
     let n = r.below(maxlen) as usize;
     let msg = r.bytes(n);
     let exp = id.reference(&msg);
